@@ -7,6 +7,7 @@ Extraction "mgmt_model.ml"
   run initial_fib initial_strat no_args consts_match_model header_overhead opts_flags ds_name
   spec_step spec_authorised spec_reject_pure spec_status_class spec_dataset spec_strategies strat_known root_has_strategy
   faces_usable cs_sane state_eqb authorised accepted spec_answered is_dataset_cmd
+  rib_sync rib_cleanup fib_want spec_rib_fib spec_fib_after_rib
   name_eqb is_prefix local_prefix nonlocal_prefix strategy_prefix of_pairs
   N.add N.mul N.of_nat N.to_nat N.eqb N.ltb N.leb N.div N.modulo N.compare
   Z.of_N Z.to_N Z.add Z.mul Z.opp Z.ltb Z.eqb Z.compare.
